@@ -83,4 +83,10 @@ theorem source_comparator_reads (_ : Unit) :
       "otherTransaction.Tx.GetGasLimit() : Int", "wrappedTx.TxHash : Bytes", "otherTransaction.TxHash : Bytes",
       "wrappedTx.computeExactPricePerUnit() : Int", "otherTransaction.computeExactPricePerUnit() : Int"] := GenProofs.moreValuable_leaves
 
+/-- the price per gas unit stored at insertion is computed by the source as ⌊fee / gasLimit⌋ saturated at 2^64 − 1, for EVERY
+    fee (the math/big path included; a reintroduced `fee.Uint64()` truncation would change the translated definition and
+    break this theorem) -/
+theorem source_price_per_unit_is_floor_saturated (t : Tx) (hg : t.gasLimit ≠ 0) :
+    Gen.pricePerUnit t.fee t.gasLimit = GenProofs.sat64 (t.ppu Variant.current) := GenProofs.pricePerUnit_eq t hg
+
 end SV.Props.C03
